@@ -11,7 +11,7 @@ TRUSTED_BASE = [
 
 PROPS = {
     "C01": dict(runs=[("dt", 400, 30000), ("bulk", 150, 8000)], lean_module="Spade.Properties.C01"),
-    "C02": dict(runs=[("dt", 300, 20000), ("cdt", 250, 20000), ("small", 250, 20000), ("bulk", 100, 6000), ("refine", 60, 2000)], lean_module="Spade.Properties.C02"),
+    "C02": dict(runs=[("dt", 300, 20000), ("cdt", 250, 20000), ("small", 250, 20000), ("bulk", 100, 6000), ("refine", 200, 4000)], lean_module="Spade.Properties.C02"),
     "C03": dict(runs=[("cdt", 400, 30000), ("split", 150, 8000), ("refine", 60, 2000)], lean_module="Spade.Properties.C03"),
     "C04": dict(runs=[("cdt", 500, 40000), ("bulk", 100, 6000)], lean_module="Spade.Properties.C04"),
     "C05": dict(runs=[("dt", 400, 30000), ("cdt", 250, 15000), ("small", 200, 15000)], lean_module="Spade.Properties.C05"),
